@@ -121,6 +121,12 @@ def parse(line):
             'V': d.get('V', '-'), 'H': d.get('H', 'ok')}
 
 
+def exposed_by_own_lapped_seek(hist):
+    """the last seek in the history is a lapped one (its vorbis_synthesis_lapout exposed the block the handle may still be in)"""
+    seeks = [o[:2] for o in hist if o[:2].lower() in ('ps', 'pp', 'rs', 'ts', 'tp')]
+    return bool(seeks) and seeks[-1] in VARIANTS
+
+
 def judge(chk, m, r, st):
     """The oracle: exactly the statement of C19 under its weakest reading.  Returns the signature of a passed non-trivial case or None."""
     where = m['file'] + ('+' + m['file2'] if m['kind'] == 'X' else '')
@@ -170,13 +176,16 @@ def judge(chk, m, r, st):
         chk.violation(f'{v}:position_differs', f'{desc0}: ov_pcm_tell {r["tB"]} after the lapped call, {r["tA"]} after the plain one', rep)
         ok = False
     if r['tail'] != 'ok':
-        chk.violation(f'{v}:audio_differs_after_lap_region', f'{desc0}: {r["tail"]} (n={r["n"]}, lap region is [0,n))', rep)
+        # same named predicate as below: vf2 still sits in the block its own lapped seek exposed (second vorbis_synthesis_lapout on one block
+        # shifts the buffer again); with n smaller than that block the damage shows beyond the lap region
+        twice = m['kind'] == 'X' and exposed_by_own_lapped_seek(m['hist2'])
+        chk.violation('XL:second_handle_block_exposed_twice' if twice else f'{v}:audio_differs_after_lap_region', f'{desc0}: {r["tail"]} (n={r["n"]}, lap region is [0,n))', rep)
         ok = False
     if r['nfail']:
         if r['avail'] < r['n'] and r['first'] >= r['avail']:
             key = 'lap_reaches_past_primed_samples'
             why = f'only {r["avail"]} finished samples were primed at the new position, the splice ran over n={r["n"]} samples into the not yet overlap-added half'
-        elif m['kind'] == 'X' and any(o[:2] in VARIANTS for o in m['hist2']):
+        elif m['kind'] == 'X' and exposed_by_own_lapped_seek(m['hist2']):
             # named predicate: the second handle's current block had already been exposed by a lapped seek in its own history
             # (vorbis_synthesis_lapout is applied to the same decoded block a second time by ov_crosslap)
             key = 'XL:second_handle_block_exposed_twice'
